@@ -265,6 +265,37 @@ def run(ctx):
         probe_copy_and_serialize(ctx, b, st1, r1, rng)
         if i == rows[0]:
             ctx.sample({"state": model.show_state(st1), "route": r1, "compared_with": n})
+    # pairs of states that differ only by a hair in one fluent value: == must tell them apart and their serialisations
+    # must read back as different states (a lossy number format would merge them)
+    NEAR = [("6.666666666666667e-05", "6.66667e-05"), ("0.30000000000000004", "0.3"), ("123456789.125", "123456789.12500001"),
+            ("2.5e-11", "0"), ("1e-05", "1.0000000001e-05"), ("-0.0001220703125", "-0.00012207031"), ("1.0", "1.0000000000000002")]
+    for a_txt, b_txt in NEAR:
+        ctx.count("cases")
+        va, vb = Fraction(float(a_txt)), Fraction(float(b_txt))
+        base = states[rng.randrange(len(states))]
+        s1 = (base[0], {**base[1], ("f", "b"): va})
+        s2 = (base[0], {**base[1], ("f", "b"): vb})
+        for route in ("problem", "trajectory"):
+            try:
+                o1, o2 = b.build(s1, route), b.build(s2, route)
+                eq = (o1 == o2)
+                t1, t2 = o1.serialize(), o2.serialize()
+                r1, r2 = model.read_state_text(t1), model.read_state_text(t2)
+                same_text_value = (float(r1[1][("f", "b")]) == float(r2[1][("f", "b")]))
+                v1, v2 = float(o1.state_fluents["(f b)"].value), float(o2.state_fluents["(f b)"].value)
+            except BaseException as e:
+                ctx.violation("state-near-values:raises", {"values": [a_txt, b_txt], "route": route, "observed": lib.exc_name(e)})
+                continue
+            ctx.count("compared:eq")
+            ctx.count("compared:eq:expected-unequal")
+            ctx.count("compared:serialize")
+            ctx.nontrivial(["near", a_txt, b_txt, route])
+            if v1 != float(va) or v2 != float(vb):
+                ctx.violation("state-near-values:value-not-kept", {"values": [a_txt, b_txt], "route": route, "held": [repr(v1), repr(v2)]})
+            elif eq is not False:
+                ctx.violation("state-eq:unequal-contents-compare-equal[values-differ-by-a-hair]", {"values": [a_txt, b_txt], "route": route})
+            elif same_text_value:
+                ctx.violation("state-serialize:unequal-states-serialise-to-the-same-value", {"values": [a_txt, b_txt], "route": route, "texts": [t1, t2]})
     # random larger states incl. ternary fluents (repeated-argument finding lives here)
     for k in range(400 if thorough else 40):
         ctx.count("cases")
